@@ -47,6 +47,8 @@ def run(ctx):
     rng = ctx.rng.fork()          # see c26.run: decorrelates consecutive seeds
     systems = [(pc.witness_early_exit(), {"family": "witness"}), (pc.witness_real_position_skip(), {"family": "witness"}),
            (pc.witness_volume_bound(), {"family": "witness"})]
+    for s in pc.witness_multiaxis_size():
+        systems.append((s, {"family": "witness"}))
     for s in pc.small_systems()[1:: ctx.scale(4, 1)]:
         systems.append((s, {"family": "small"}))
     for s in pc.staggered_systems(rng, n_random=ctx.scale(6, 40)):
